@@ -932,6 +932,10 @@ class Rechunk(ArrayExpr):
 
         expand = self.array
         axes = set(expand.axes)
+        if any(tuple(self.chunks[ax]) != (1,) for ax in axes):
+            # a target such as (1, 0) on an expanded axis cannot be produced
+            # underneath: ExpandDims always gives that axis the chunks (1,)
+            return None
         # self.chunks is the settled target (balance already applied), so the
         # inner rechunk takes it verbatim with balance off.
         inner_chunks = tuple(c for ax, c in enumerate(self.chunks) if ax not in axes)
@@ -994,6 +998,11 @@ class Rechunk(ArrayExpr):
         # Convert dict chunks to tuple for positional indexing
         if isinstance(chunks, dict):
             chunks = tuple(chunks.get(i, -1) for i in range(elemwise.ndim))
+
+        if any(isinstance(c, tuple) and sum(c) == 1 and c != (1,) for c in chunks):
+            # a length-1 axis with a target such as (0, 1): the operands' length-1
+            # axes are always given the chunks (1,) below, which would lose it
+            return None
 
         def rechunk_array_arg(arg):
             """Rechunk an array argument to match target output chunks."""
